@@ -93,62 +93,97 @@ func VH_C05_leader(n int, rule int) {
 	vobserve("proposed", uint64(len(r.Comm.Proposed)))
 }
 
-// C05(c): recovery through timeouts. The replica's timer fires in view v0; it broadcasts a
-// correctly signed timeout carrying its sync info, re-sends it while it is stuck, and when the
-// timeouts of a quorum (its own included) are in, moves to v0+1. There it either proposes at
-// once, extending its high QC (lead = 1), or tells the next leader (lead = 0).
-func VH_C05_timeout(n int, rule int, lead int) {
-	lr := vhLeadsOne{}
+// C05(c): recovery through timeouts, `rounds` views in a row. The replica's timer fires in view
+// v; it broadcasts a correctly signed timeout carrying its sync info, re-sends it while it is
+// stuck, and when the timeouts of a quorum (its own included) are in, moves to v+1. There it
+// either proposes at once, extending its high QC (lead = 1: it leads every view after v0, so from
+// the second round on its previous proposal was lost and is not on the certified chain), or tells
+// the next leader (lead = 0).
+func VH_C05_timeout(n int, rule int, lead int, rounds int) {
+	lr := vhLeadsFrom{}
 	r := VNewReplicaWith(n, rule, &lr, vsymbolic())
 	q := hotstuff.VQuorumRef(n)
 	v0, B0 := vhSyncStart(r, q, 1<<40)
 	if lead == 1 {
-		lr.mine = v0 + 1
-		r.Cmds.Add(&clientpb.Command{ClientID: 1, SequenceNumber: 1})
-	}
-	r.Sync.OnLocalTimeout()
-	r.Drain()
-	vassert(len(r.Comm.Timeouts) == 1, "timeout-broadcast-when-the-timer-fires")
-	if len(r.Comm.Timeouts) < 1 {
-		return
-	}
-	tm := r.Comm.Timeouts[0]
-	vassert(tm.View == v0 && tm.ID == 1, "timeout-names-the-stuck-view")
-	vassert(r.W.AuthFor(2, 0).Verify(tm.ViewSignature, v0.ToBytes()) == nil, "timeout-signature-verifies-at-other-replicas")
-	hq, hasQC := tm.SyncInfo.QC()
-	vassert(hasQC && hq.BlockHash() == B0.Hash(), "timeout-carries-the-high-qc")
-	vassert(r.States.View() == v0, "a-single-timeout-does-not-move-the-view")
-	r.Sync.OnLocalTimeout()
-	r.Drain()
-	vassert(len(r.Comm.Timeouts) == 2 && r.Comm.Timeouts[1].View == v0, "timeout-re-sent-while-stuck")
-	si := r.States.SyncInfo()
-	for i := 0; i < q-1; i++ {
-		vassert(r.States.View() == v0, "no-advance-before-a-quorum-of-timeouts")
-		s := i + 2
-		r.Sync.OnRemoteTimeout(vhTimeoutMsg(r.W, s, s-1, v0, si, rule == 1))
-		r.Drain()
-	}
-	vcover("quorum-of-timeouts")
-	vassert(r.States.View() == v0+1, "quorum-of-timeouts-moves-the-replica-on")
-	vassert(len(r.Views) >= 1 && r.Views[len(r.Views)-1].View == v0+1, "view-change-signalled")
-	if lead == 1 {
-		vassert(len(r.Comm.Proposed) == 1, "new-leader-proposes-at-once-after-the-timeout-certificate")
-		if len(r.Comm.Proposed) == 1 {
-			b := r.Comm.Proposed[0].Block
-			vassert(b.View() == v0+1 && b.Parent() == B0.Hash(), "proposal-extends-the-high-qc")
-			if rule == 1 {
-				vassert(r.Comm.Proposed[0].AggregateQC != nil, "fast-hotstuff-proposal-carries-the-aggregate-qc")
-			}
+		lr.from = v0 + 1
+		for i := 0; i < rounds; i++ {
+			r.Cmds.Add(&clientpb.Command{ClientID: 1, SequenceNumber: uint64(i + 1)})
 		}
-	} else {
-		vassert(len(r.Comm.NewViews) >= 1, "next-leader-is-told")
-		if len(r.Comm.NewViews) >= 1 {
-			nv := r.Comm.NewViews[len(r.Comm.NewViews)-1]
-			tc, hasTC := nv.TC()
-			vassert(hasTC && tc.View() == v0, "new-view-carries-the-timeout-certificate")
-			_, hasQ := nv.QC()
-			vassert(hasQ, "new-view-carries-the-high-qc")
+	}
+	for round := 0; round < rounds; round++ {
+		v := v0 + hotstuff.View(round)
+		sent := len(r.Comm.Timeouts)
+		r.Sync.OnLocalTimeout()
+		r.Drain()
+		vassert(len(r.Comm.Timeouts) == sent+1, "timeout-broadcast-when-the-timer-fires")
+		if len(r.Comm.Timeouts) != sent+1 {
+			return
+		}
+		tm := r.Comm.Timeouts[sent]
+		vassert(tm.View == v && tm.ID == 1, "timeout-names-the-stuck-view")
+		vassert(r.W.AuthFor(2, 0).Verify(tm.ViewSignature, v.ToBytes()) == nil, "timeout-signature-verifies-at-other-replicas")
+		hq, hasQC := tm.SyncInfo.QC()
+		vassert(hasQC && hq.BlockHash() == B0.Hash(), "timeout-carries-the-high-qc")
+		vassert(r.States.View() == v, "a-single-timeout-does-not-move-the-view")
+		r.Sync.OnLocalTimeout()
+		r.Drain()
+		vassert(len(r.Comm.Timeouts) == sent+2 && r.Comm.Timeouts[sent+1].View == v, "timeout-re-sent-while-stuck")
+		si := r.States.SyncInfo()
+		for i := 0; i < q-1; i++ {
+			vassert(r.States.View() == v, "no-advance-before-a-quorum-of-timeouts")
+			s := i + 2
+			r.Sync.OnRemoteTimeout(vhTimeoutMsg(r.W, s, s-1, v, si, rule == 1))
+			r.Drain()
+		}
+		vcover("quorum-of-timeouts")
+		vassert(r.States.View() == v+1, "quorum-of-timeouts-moves-the-replica-on")
+		vassert(len(r.Views) >= 1 && r.Views[len(r.Views)-1].View == v+1, "view-change-signalled")
+		if lead == 1 {
+			vassert(len(r.Comm.Proposed) == round+1, "new-leader-proposes-at-once-after-the-timeout-certificate")
+			if len(r.Comm.Proposed) == round+1 {
+				b := r.Comm.Proposed[round].Block
+				vassert(b.View() == v+1 && b.Parent() == B0.Hash(), "proposal-extends-the-high-qc")
+				if rule == 1 {
+					vassert(r.Comm.Proposed[round].AggregateQC != nil, "fast-hotstuff-proposal-carries-the-aggregate-qc")
+				}
+			}
+		} else {
+			vassert(len(r.Comm.NewViews) >= 1, "next-leader-is-told")
+			if len(r.Comm.NewViews) >= 1 {
+				nv := r.Comm.NewViews[len(r.Comm.NewViews)-1]
+				tc, hasTC := nv.TC()
+				vassert(hasTC && tc.View() == v, "new-view-carries-the-timeout-certificate")
+				_, hasQ := nv.QC()
+				vassert(hasQ, "new-view-carries-the-high-qc")
+			}
 		}
 	}
 	vobserve("view", uint64(r.States.View()-v0))
+}
+
+// C05(d): catching up. The other replicas timed out of view v0 and the leader of v0+1 already
+// proposed (extending the common high QC); that proposal overtakes the timeout certificate and
+// reaches the replica while it is still in v0. It must be kept, and once the certificate arrives
+// (here: a quorum of timeouts) the replica moves to v0+1 and votes for it.
+func VH_C05_early_proposal(n int, rule int) {
+	r := VNewReplica(n, rule, hotstuff.ID(2), vsymbolic())
+	q := hotstuff.VQuorumRef(n)
+	v0, B0 := vhSyncStart(r, q, 1<<40)
+	P := hotstuff.VMakeBlock(hotstuff.VHash(10), B0.Hash(), r.W.HonestQC(B0, q, false), &clientpb.Batch{}, v0+1, 2)
+	r.El.AddEvent(hotstuff.ProposeMsg{ID: 2, Block: P})
+	r.Drain()
+	vassert(r.States.View() == v0 && len(r.Comm.VotedBlocks) == 0, "early-proposal-is-not-voted-before-its-view")
+	si := r.States.SyncInfo()
+	for i := 0; i < q; i++ {
+		s := i + 2
+		if s > n {
+			break
+		}
+		r.Sync.OnRemoteTimeout(vhTimeoutMsg(r.W, s, s-1, v0, si, rule == 1))
+		r.Drain()
+	}
+	vcover("caught-up")
+	vassert(r.States.View() == v0+1, "timeout-certificate-moves-the-lagging-replica-on")
+	vassert(len(r.Comm.VotedBlocks) == 1 && r.Comm.VotedBlocks[0] == P, "kept-proposal-is-voted-once-its-view-is-reached")
+	vobserve("voted", uint64(len(r.Comm.VotedBlocks)))
 }
